@@ -6,7 +6,9 @@
 2. R: the same state graph is enumerated in generation mode; every map is replayed into the real
    header.Write; an independent walker logs the directory and the raw bytes; header.Read +
    ReadTableBytes read the file back.
-3. V: seeded random maps (random tags, up to 40 tables, longer data) and whole fonts written with
+3. V: seeded random maps (random tags, up to 40 tables, longer data; plus a sweep with every printable
+   character 0x20..0x7E at every tag position; every map with a head table is written twice, the
+   second time with the adjustment patched in by the first) and whole fonts written with
    (*sfnt.Font).Write (also parsed by golang.org/x/image/font/sfnt) are recorded the same way: the
    corpus fonts and the fonts described by TLC from ContainerFonts.tla (units per em 16..16384, glyph
    counts 1..1000, advances 0/1/32767, cmap codes U+0020/U+FFFF/astral, names absent/short/long).
@@ -253,7 +255,8 @@ def run(ctx):
     while done < nrand:
         n = min(8000, nrand - done)
         tr = os.path.join(d, "random%d.ndjson" % k)
-        ctx.run([binp, "random", str(n), tr], env={"VERIF_SEED": str(ctx.seed * 1000 + k)})
+        ctx.run([binp, "random", str(n)] + (["sweep"] if k == 0 else []) + [tr],
+                env={"VERIF_SEED": str(ctx.seed * 1000 + k)})
         for c in vlib.read_ndjson(tr + ".cases"):
             distinct.add(json.dumps(c["tabs"], sort_keys=True))
         _judge(ctx, tr, "ContainerTrace: random maps %d" % k, stats)
